@@ -471,12 +471,12 @@ pub fn bank_info(r: &mut Rng, h: u8) -> String {
         0 => String::new(),
         1 => "0:0:0:0:".into(),
         2 => format!("{}:{}:0:0:", b(r), b(r)),
-        3 => format!("{}:{}:{}:{}:", b(r), b(r), num_i(r.range(0, 4), r, h), num_i(*r.pick(&[0, 50, 100, 30, 101, -3]), r, h)),
+        3 => format!("{}:{}:{}:{}:", b(r), b(r), num_i(if h >= 1 && r.chance(1, 8) { -r.range(1, 5) } else { r.range(0, 4) }, r, h), num_i(*r.pick(&[0, 50, 100, 30, 101, -3]), r, h)),
         4 => format!(
             "{}:{}:{}:{}:{}",
             b(r),
             b(r),
-            r.below(3),
+            r.range(-2, 3),
             r.below(101),
             ["a.wav", "", "b c.ogg", "dir/x.wav", "x:y.wav", "音.wav", "é", "日a", "sfx\\hit_1.wav", "a\\b/c.ogg", "UPPER.WAV", "x,y.wav", "\"q\".wav", "a|b.wav"][r.below(14)]
         ),
@@ -754,6 +754,9 @@ pub fn timing_line(r: &mut Rng, cfg: &Cfg, time: f64, force_timing: bool) -> Str
             -66.6666666666667,
             -2000.0,
             -1.0e9,
+            -0.00001,
+            -1e-250,
+            -0.5,
         ]);
         if h >= 1 && r.chance(1, 25) {
             "NaN".to_string()
